@@ -32,3 +32,32 @@ pub fn extent_of(kind: u8) -> Option<emit::Extent> {
         _ => Some(emit::Extent::range(ts(2)..ts(5))),
     }
 }
+
+/// Stand-in for `emit::Value::parse` in harnesses whose kind is a captured `emit::Kind`: the
+/// kind must be recovered by downcasting, never by formatting and re-parsing (the formatting
+/// machinery does not finish under CBMC). Reaching it fails the harness.
+pub fn parse_not_reached<'v, T: core::str::FromStr>(_v: &emit::Value<'v>) -> Option<T>
+where
+    'v: 'v, // makes 'v early-bound so that the generics line up with `impl<'v> Value<'v> { fn parse<T> }`
+{
+    panic!("Value::parse reached for a captured Kind")
+}
+
+/// Stand-in for `std::hash::RandomState::new` (reads OS randomness through thread-locals): fixed
+/// keys. Hash-map contents do not depend on the keys; hash-flooding behaviour is outside the claims.
+pub fn fixed_random_state() -> std::hash::RandomState {
+    unsafe { core::mem::transmute::<[u64; 2], std::hash::RandomState>([0x0706050403020100, 0x0f0e0d0c0b0a0908]) }
+}
+
+/// Stand-in for `std::panic::catch_unwind`: Kani has no unwinding (a panic is a failed check and
+/// aborts the path), so running the closure and returning `Ok` is exact; the intrinsic itself
+/// crashes kani-compiler 0.68 when reachable (DESIGN.md §3).
+pub fn no_unwind<F: FnOnce() -> R + std::panic::UnwindSafe, R>(f: F) -> std::thread::Result<R> {
+    Ok(f())
+}
+
+/// Stand-in for `alloc::fmt::format` in harnesses where no formatted text is observed (error and
+/// diagnostic messages only): `fmt::write` through function pointers does not finish under CBMC.
+pub fn no_format(_args: core::fmt::Arguments<'_>) -> String {
+    String::new()
+}
